@@ -176,6 +176,10 @@ def write_molecule_itp(molecule, outfile, header=(), moltype=None,
         # section of the ITP file.
         new_atom['charge'] = new_atom.get('charge', '')
         new_atom['mass'] = new_atom.get('mass', '')
+        if new_atom['charge'] == '' and new_atom['mass'] != '':
+            # The columns are positional: the mass would be read as the charge.
+            raise ValueError('Atom {} has a mass but no charge; it cannot be '
+                             'written in the [ atoms ] section.'.format(original_idx))
 
         outfile.write('{idx:>{max_length[idx]}} '
                       '{atype:<{max_length[atype]}} '
